@@ -839,8 +839,8 @@ func (c *callCmd) CostTime() time.Duration {
 }
 
 func (c *callCmd) done() {
-	c.sess.callCmdMap.Delete(c.output.Seq())
 	vp("cmd.done", c.sess, int64(c.output.Seq()), 0)
+	c.sess.callCmdMap.Delete(c.output.Seq())
 	c.callCmdChan <- c
 	close(c.doneChan)
 	// free count call-launch
